@@ -37,7 +37,7 @@ OPKINDS = ["append", "multi", "delete", "replace", "expire", "delete_snapshot", 
 COARSE_MS = 1_790_000_000_000
 
 
-def build_base(world, nprior, coarse=False):
+def build_base(world, nprior, coarse=False, multi=False):
     from .. import clock as vclock
 
     # coarse clock: the last prior commits and the concurrent commits all fall into the same millisecond
@@ -50,6 +50,12 @@ def build_base(world, nprior, coarse=False):
             elif clk:
                 clk.tick(1)
             t.append_records([{"k": i, "s": f"base{i}"}])
+        if multi:
+            # one manifest holding THREE data files: deleting one of them rewrites that manifest (partial delete)
+            with t.new_transaction() as txm:
+                for j in range(3):
+                    txm.append_data([{"k": 70 + j, "s": f"multi{j}"}])
+                txm.commit()
     return read_view(world.fs())
 
 
@@ -311,7 +317,9 @@ def run_case(case):
     sc = case["sc"]
     with scratch_dir("c01") as d:
         world = c04.make_world(d, sc["world"])
-        base = build_base(world, sc["nprior"], coarse=sc["clock"] != "real")
+        base = build_base(world, sc["nprior"], coarse=sc["clock"] != "real", multi=bool(sc.get("multi_base")))
+        if sc.get("multi_base"):
+            out["labels"].append("multi-file-manifest-base")
 
         def make_actors(w, sch, clk):
             if sc["topology"] == "shared":
@@ -387,6 +395,7 @@ def pct_case(draw):
     clock = draw(st.sampled_from(["real", "coarse", "coarse"]))
     n = draw(st.integers(2, 4))
     nprior = draw(st.integers(1, 4))
+    multi_base = draw(st.integers(0, 3)) == 0
     ops = []
     for _ in range(n):
         k = draw(st.sampled_from(OPKINDS))
@@ -398,7 +407,7 @@ def pct_case(draw):
     order = draw(st.permutations(list(range(n))))
     npre = draw(st.integers(0, 3))
     pre = [[draw(st.integers(1, 220)), draw(st.integers(0, n - 1))] for _ in range(npre)]
-    return {"kind": "sched", "sc": {"world": world, "topology": topo, "clock": clock, "nprior": nprior, "ops": ops},
+    return {"kind": "sched", "sc": {"world": world, "topology": topo, "clock": clock, "nprior": nprior, "ops": ops, **({"multi_base": True} if multi_base else {})},
             "schedule": {"order": list(order), "preempt": sorted(pre)}, "seed": draw(st.integers(0, 3))}
 
 
@@ -497,6 +506,11 @@ def plan(tier, seed):
             for world, topo in ([("local", "separate")] if tier == "quick" else [("local", "separate"), ("s3cas", "separate"), ("local", "shared")]):
                 sc = {"world": world, "topology": topo, "clock": "coarse", "nprior": 3, "ops": [{"op": k1, "which": 1}, {"op": k2, "which": 0}]}
                 tasks.append({"kind": "enum", "sc": sc, "shard": 0, "nshard": 1, "orders": [[0, 1]] if tier == "quick" else None, "label": "enum-pairs"})
+    # a base whose ONLY manifest holds three files: two committers that each delete / replace a different file of it both rewrite
+    # that one manifest
+    for k1, k2 in [("delete", "delete"), ("delete", "replace"), ("replace", "replace"), ("delete", "append")]:
+        sc = {"world": "local", "topology": "separate", "clock": "coarse", "nprior": 0, "multi_base": True, "ops": [{"op": k1, "which": 1}, {"op": k2, "which": 0}]}
+        tasks.append({"kind": "enum", "sc": sc, "shard": 0, "nshard": 1, "orders": [[0, 1]] if tier == "quick" else None, "label": "enum-pairs"})
     n = 45 if tier == "quick" else 2500
     for s in range(4 if tier == "quick" else 16):
         tasks.append({"kind": "pct", "n": n, "seed": seed * 1000 + s, "tier": tier})
